@@ -234,6 +234,13 @@ func c15CaseInsts(tier string) []CaseInst {
 	for _, sc := range c15Cases(tier) {
 		out = append(out, CaseInst{ID: sc.ID, Desc: sc.desc(), Gen: c15Gen(sc)})
 	}
+	// Uncurry alone, over a hand-written curried function whose outer and inner parameter share a name
+	out = append(out, CaseInst{ID: "U01", Desc: "uncurry func(a int) func(a string) int", Gen: func(g *Gen, id string) []HarnessSrc {
+		g.addFunc("c15decl_"+id, fmt.Sprintf("var c15calls%s int\nvar c15x%s int\nvar c15y%s string\nvar c15r%s int\n\nfunc c15cur%s(a int) func(a string) int {\n\tx := a\n\treturn func(a string) int {\n\t\tc15calls%s++\n\t\tc15x%s, c15y%s = x, a\n\t\treturn c15r%s\n\t}\n}\n", id, id, id, id, id, id, id, id, id))
+		body := fmt.Sprintf("\tc15calls%s = 0\n\tc15r%s = vx.Nondet[int](\"r\")\n\tx := vx.Nondet[int](\"x\")\n\ty := vx.Nondet[string](\"y\")\n\to := deriveUncurry%s(c15cur%s)(x, y)\n"+
+			"\tvx.Assert(c15calls%s == 1 && c15x%s == x && c15y%s == y && o == c15r%s, \"uncurried call = one call of the curried function with both arguments in place\")\n", id, id, id, id, id, id, id, id)
+		return []HarnessSrc{h("VX_C15_uncurryonly_"+id, "uncurry", body)}
+	}})
 	return out
 }
 
